@@ -243,7 +243,9 @@ pub fn trap_handler_family(rng: &mut Rng) -> Shape {
     let mut p = Program::default();
     p.label("main");
     p.push(Ins::La { rd: ptr, label: "handler".into() });
-    p.push(Ins::Csrrw { rd: ZERO, csr: 5, rs1: ptr });
+    // the old vector is thrown away, kept in another register, or swapped into the same one
+    let old_vector = *rng.pick(&[ZERO, ZERO, ptr, 29]);
+    p.push(Ins::Csrrw { rd: old_vector, csr: 5, rs1: ptr });
     if rng.chance(0.5) {
         p.push(Ins::La { rd: ptr, label: "save_area".into() });
         p.push(Ins::Csrrw { rd: ZERO, csr: csr_ptr, rs1: ptr });
@@ -323,6 +325,18 @@ pub fn failure_shapes(rng: &mut Rng) -> Vec<Shape> {
         p.push(Ins::La { rd: 5, label: "nowhere".into() });
         p.push(Ins::mv(A0, 5));
         exit(p);
+    }));
+    // (branches that compare the zero register with itself are never or always taken: their label
+    // is used all the same)
+    let zc = *rng.pick(&ALL_COND);
+    v.push(mk("undefined-in-branch-on-zero-registers", &|p| {
+        p.push(Ins::Branch { c: zc, rs1: ZERO, rs2: ZERO, label: "nowhere".into() });
+        exit(p);
+    }));
+    v.push(mk("label-at-end-of-file-in-branch-on-zero-registers", &|p| {
+        p.push(Ins::Branch { c: zc, rs1: ZERO, rs2: ZERO, label: "the_end".into() });
+        exit(p);
+        p.label("the_end");
     }));
     v.push(mk("undefined-several", &|p| {
         p.push(Ins::Branch { c: Cond::Eq, rs1: A0, rs2: ZERO, label: "nowhere_a".into() });
